@@ -2,6 +2,7 @@ package props
 
 import (
 	"fmt"
+	"math"
 	"runtime"
 	"sort"
 	"strings"
@@ -72,8 +73,15 @@ func (p c10) Run(c *core.Ctx) {
 		family = "post-processors-with-dependencies"
 		g = RandomPopulation(c.Rng, PopOpts{MinP: 2, MaxP: 8, Types: plainAB, PUnnamed: 0.4})
 		g.Sc.Config = "dep:\n  v: configured\n"
-		for k := 0; k < 1+c.Rng.Intn(3); k++ {
-			depSpecs = append(depSpecs, depSpec{c.Rng.Intn(3), []int{-5, 1, 3, 100}[c.Rng.Intn(4)], fmt.Sprintf("deppp%d", k)})
+		ords := []int{-5, 1, 3, 100}
+		nd := 1 + c.Rng.Intn(3)
+		if c.Rng.Intn(3) == 0 {
+			// the highest / lowest precedence idiom next to small orders
+			ords = []int{math.MinInt, -1, 3, 100, math.MaxInt, math.MaxInt - 1, math.MinInt + 1}
+			nd = 2 + c.Rng.Intn(3)
+		}
+		for k := 0; k < nd; k++ {
+			depSpecs = append(depSpecs, depSpec{c.Rng.Intn(3), ords[c.Rng.Intn(len(ords))], fmt.Sprintf("deppp%d", k)})
 		}
 	} else if c.Index < p.popCount(c.Tier) {
 		g = RandomPopulation(c.Rng, PopOpts{MinP: 3, MaxP: 12, Types: world.TypesAll, PUnnamed: 0.4})
